@@ -10,6 +10,7 @@ oracle_c14 — line protocol (one executor at a time; every op is followed by th
   `cancel <id>`           cancel the context of call id
   `stop`, `run` (`Run()`; `new` does NOT start the consumers)
   `hammer <kind> <seed> <n>` → `done` (parallel stress on a fresh executor, judged by monitors only)
+  `backlog <kind> <n>` → `done` (n calls accepted behind a held callee on a fresh executor, judged by monitors only)
   `boom <id>`             the running callee of call id panics → `crash`, and `crash` for every later line
   `slot <hash> <slots>`   → value of the regenerated `NormalizeSlotIndex` kernel (slots > 0)
 Result line of call/fin/cancel/stop: the sorted, comma-separated new events
@@ -143,6 +144,10 @@ def stepLive (st : St) (line : String) : St × String :=
     (match parseKind k, natOf seed, natOf n with
      | some _, some _, some n => if n ≤ 64 then (st, "done") else (st, "bad-op")
      | _, _, _ => (st, "bad-op"))
+  | ["backlog", k, n] =>
+    (match parseKind k, natOf n with
+     | some _, some n => if 1 ≤ n && n ≤ 5000 then (st, "done") else (st, "bad-op")
+     | _, _ => (st, "bad-op"))
   | ["run"] =>
     (match st with
      | some (x :: xs) => let r := applyAll (x :: xs) (fun _ => [.run]) "-"; (some r.1, r.2)
